@@ -11,6 +11,22 @@ class Ctx(object):
         self._lex = None
         self._cg = None
         self._mods = None
+        # helpers introduced by refactoring (not in the reference list) are analysed as part of their callers
+        import json as _json
+        try:
+            with open(os.path.join(os.path.dirname(os.path.dirname(os.path.abspath(__file__))), 'spec', 'known_functions.json')) as fh:
+                known = set(_json.load(fh)['functions'])
+        except Exception:
+            known = None
+        self.unknown_funcs = set()
+        if known is not None:
+            for m in self.modules:
+                for n in m.funcs:
+                    if n in known or n.startswith('cfg_yy') or n.startswith('yy'):
+                        continue
+                    self.unknown_funcs.add(n)
+        sym.AUTO_INLINE = set(self.unknown_funcs)
+        self._owners = None
         # fresh-returning functions are computed from the IR (a renamed or new allocation wrapper is picked up)
         from . import ownership
         self.fresh_returning = summaries.fresh_returning(self.modules)
@@ -45,6 +61,55 @@ class Ctx(object):
         if self._mods is None:
             self._mods = summaries.mod_sets(self.modules)
         return self._mods
+
+    def owners(self, name):
+        """known functions from which the (unknown) helper `name` is reached through unknown helpers only;
+        a known function is its own owner"""
+        if name not in self.unknown_funcs:
+            return {name}
+        if self._owners is None:
+            self._owners = {}
+            cg = self.callgraph
+            rev = {}
+            for a, bs in cg.items():
+                for b in bs:
+                    rev.setdefault(b, set()).add(a)
+            for h in self.unknown_funcs:
+                seen, work, own = set(), [h], set()
+                while work:
+                    x = work.pop()
+                    if x in seen:
+                        continue
+                    seen.add(x)
+                    for caller in rev.get(x, ()):
+                        if caller in self.unknown_funcs:
+                            work.append(caller)
+                        else:
+                            own.add(caller)
+                self._owners[h] = own
+        return self._owners.get(name, set())
+
+    def deep_funcs(self, fn):
+        """fn plus the unknown helpers it reaches through unknown helpers only"""
+        out, work, seen = [], [fn], set()
+        while work:
+            f = work.pop()
+            if f.name in seen:
+                continue
+            seen.add(f.name)
+            out.append(f)
+            for call in f.calls():
+                n = call.callee_name()
+                if n in self.unknown_funcs:
+                    g = self.func(n)
+                    if g is not None:
+                        work.append(g)
+        return out
+
+    def deep_calls(self, fn, name=None):
+        for f in self.deep_funcs(fn):
+            for call in f.calls(name):
+                yield call
 
     def func(self, name):
         for m in self.modules:
